@@ -12,6 +12,7 @@ RULE = ("files with random 32-bit packed words (random top bits), random channel
         "bits of the bit field, random telemetry words; get_counts / get_telemetry / dataset variables compared per "
         "value with the format's div/mod formula (oracle) and with the Lean model. A case = (format, line); non-trivial "
         "= the line has at least two different samples; distinct by (format, seed, line)")
+RULE += (" In the thorough tier, and in the quick tier whenever the source differs from the validated baseline, a LONG-PASS stream is added (passes of 1300 .. 12000 lines, just beyond multiples of 256 .. 8192, with the property-relevant event placed at and after such multiples; DESIGN 10.4 round 13).")
 
 
 def spec_counts(words, width):
